@@ -91,7 +91,6 @@ PROPS['C03'] = dict(
     units=list(srcsec.UNITS),
     level='proof',
     min_obligations=100,
-    budget_s=150,
     assumptions=[],
     explanation="",
 )
